@@ -186,6 +186,8 @@ class Check:
         """ctx_of(fail) -> dict describing the failing event (alg, k, fmt, weights...) for known-finding matching."""
         for fl in fails:
             clause = fl["c"]
+            if clause.startswith("MACHINERY."):
+                raise Machinery("judge %s reported %s on %s" % (fl["module"], clause, json.dumps(fl["trace"])[:400]))
             ctx = ctx_of(fl)
             if clause.startswith("DRIFT."):
                 self.drift += 1
